@@ -44,6 +44,7 @@ type vfProgram struct {
 	Limit   int      `json:"limit"` // dfs/random: max number of schedules
 	Seed    int64    `json:"seed"`
 	NoScope bool     `json:"noscope"`
+	Inner   bool     `json:"inner"` // cacheMu acquisitions inside critical sections are scheduling points
 }
 
 type vfThread struct {
@@ -59,6 +60,8 @@ type vfThread struct {
 	panicMsg  string
 	curOp     vfOp
 	stepsInOp int
+	stepA     string // action name of the step in progress (kept across inner scheduling points)
+	basePos   string // position at the last step boundary (used while at an inner point)
 }
 
 type vfRun struct {
@@ -136,13 +139,34 @@ func (r *vfRun) project(ev *vfEvent) {
 	}
 	ev.Parked, ev.Runnable = []int{}, []int{}
 	for _, th := range r.threads {
-		switch th.vt.Pos() {
+		pos := th.vt.Pos()
+		if pos == vsync.PosInner {
+			ev.Inner = th.id
+			// inside a critical section whose record is written when it ends:
+			// project the thread to where it was when the section began
+			pos = th.basePos
+		}
+		switch pos {
 		case vsync.PosParked:
 			ev.Parked = append(ev.Parked, th.id)
 		case vsync.PosLock, vsync.PosRLock, vsync.PosWoken:
 			ev.Runnable = append(ev.Runnable, th.id)
+		case vsync.PosWaitEntry:
+			ev.Runnable = append(ev.Runnable, th.id)
+			ev.Holder = th.id
 		}
 	}
+}
+
+// midCS returns the thread that is parked inside a critical section (on entry
+// to Cond.Wait or at an inner scheduling point), if any.
+func (r *vfRun) midCS() *vfThread {
+	for _, th := range r.threads {
+		if p := th.vt.Pos(); p == vsync.PosWaitEntry || p == vsync.PosInner {
+			return th
+		}
+	}
+	return nil
 }
 
 func (r *vfRun) emit(ev *vfEvent) {
@@ -238,6 +262,16 @@ func (r *vfRun) eligible(th *vfThread) bool {
 	if !th.vt.Enabled() {
 		return false
 	}
+	if m := r.midCS(); m != nil && m != th {
+		// m holds messagesMu: only lock-free operations of other threads can
+		// happen now: a context cancellation, and InterruptGetNext if the code
+		// under test broadcasts without taking messagesMu (probed at start-up)
+		if th.vt.Pos() != vsync.PosIdle || th.next >= len(th.ops) {
+			return false
+		}
+		op := th.ops[th.next].Op
+		return op == "Cancel" || (op == "Interrupt" && !vfIntLocked)
+	}
 	if th.vt.Pos() != vsync.PosIdle {
 		return true
 	}
@@ -277,28 +311,43 @@ func (r *vfRun) eligible(th *vfThread) bool {
 	return true
 }
 
-// step grants the processor to th for one step and logs the outcome.
+// step grants the processor to th for one step and logs the outcome. A step
+// that ends at an inner scheduling point writes no record: the record of a
+// critical section is written when it ends.
 func (r *vfRun) step(th *vfThread) (crashed bool) {
-	ev := &vfEvent{Ev: "Step", T: th.id, Ret: vfRet{K: "none"}}
-	if th.vt.Pos() == vsync.PosIdle {
+	switch pos := th.vt.Pos(); pos {
+	case vsync.PosIdle:
 		op := th.ops[th.next]
 		th.next++
 		th.curOp, th.inOp, th.opDone, th.stepsInOp = op, true, false, 0
-		ev.A = op.Op
-		switch op.Op {
-		case "Cancel":
-			ev.Arg = op.T
-		case "Interrupt":
-			ev.Arg = 0
-		default:
-			ev.Arg = r.rk(op.ID)
-		}
-	} else {
-		ev.A = "W"
+		th.stepA, th.basePos = op.Op, pos
+	case vsync.PosWaitEntry:
+		th.stepA, th.basePos = "Wreg", pos
+	case vsync.PosInner:
+	default:
+		th.stepA, th.basePos = "W", pos
 	}
 	th.stepsInOp++
 	r.trace = append(r.trace, th.id)
+	ub := th.vt.UnlockedBroadcasts
+	// inner scheduling points only inside the critical sections of GetNext (the
+	// other operations' sections are not affected by lock-free events)
+	r.sched.Inner = r.prog.Inner && th.curOp.Op == "GetNext"
 	r.sched.Step(th.vt)
+	if !th.opDone && th.vt.Pos() == vsync.PosInner {
+		return false
+	}
+	ev := &vfEvent{Ev: "Step", T: th.id, A: th.stepA, Ret: vfRet{K: "none"}, Locked: th.vt.UnlockedBroadcasts == ub}
+	if th.stepA != "W" && th.stepA != "Wreg" {
+		switch th.curOp.Op {
+		case "Cancel":
+			ev.Arg = th.curOp.T
+		case "Interrupt":
+			ev.Arg = 0
+		default:
+			ev.Arg = r.rk(th.curOp.ID)
+		}
+	}
 	if th.opDone {
 		th.inOp = false
 		ev.Ret = th.ret
@@ -368,7 +417,7 @@ func (r *vfRun) execute(choose vfChooser) {
 	for id, k := range r.rank {
 		ids[k] = fmt.Sprintf("%d", id)
 	}
-	r.emit(&vfEvent{Ev: "Reset", Prog: r.prog.Name, Ids: ids, NThreads: len(r.threads), Note: "sched",
+	r.emit(&vfEvent{Ev: "Reset", Prog: r.prog.Name, Ids: ids, NThreads: len(r.threads), Note: "sched", IntLock: vfIntLocked, Locked: true,
 		Ret: vfRet{K: "none"}, Keys: []int{}, Next: []int{}, Bad: []int{}, CKeys: []int{}, CNext: []int{},
 		Parked: []int{}, Runnable: []int{}})
 	crashed, finish := false, false
@@ -415,13 +464,13 @@ func (r *vfRun) execute(choose vfChooser) {
 	if !crashed {
 		for _, th := range r.threads {
 			p := th.vt.Pos()
-			if p == vsync.PosLock || p == vsync.PosRLock || p == vsync.PosWoken {
+			if p == vsync.PosLock || p == vsync.PosRLock || p == vsync.PosWoken || p == vsync.PosWaitEntry || p == vsync.PosInner {
 				if note == "" {
 					note = "not quiescent"
 				}
 			}
 		}
-		ev := &vfEvent{Ev: "Quiescent", Ret: vfRet{K: "none"}, Sched: r.trace, Note: note}
+		ev := &vfEvent{Ev: "Quiescent", Ret: vfRet{K: "none"}, Sched: r.trace, Note: note, Locked: true}
 		r.project(ev)
 		r.emit(ev)
 	} else {
@@ -513,6 +562,36 @@ func (r *vfRun) random(n int, seed int64) {
 	}
 }
 
+// vfIntLocked: InterruptGetNext of the code under test holds messagesMu when it
+// broadcasts. Not assumed: probed on the real function at start-up.
+var vfIntLocked = true
+
+func vfProbeInterrupt(t *testing.T) bool {
+	dir, err := os.MkdirTemp(os.Getenv("VERIF_C08_TMP"), "probe")
+	if err != nil {
+		t.Fatal(err)
+	}
+	defer os.RemoveAll(dir)
+	o, err := NewOutputStream(dir)
+	if err != nil {
+		t.Fatal(err)
+	}
+	o.cacheMu.NoYield = true
+	s := vsync.New()
+	th := s.Spawn(1, func(vt *vsync.Thread) {
+		vt.Idle()
+		o.InterruptGetNext()
+	})
+	for i := 0; i < 8 && th.Pos() != vsync.PosDone && th.Enabled(); i++ {
+		s.Step(th)
+	}
+	locked := th.UnlockedBroadcasts == 0
+	s.Abort()
+	o.db.Close()
+	o.db = nil
+	return locked
+}
+
 func TestVerifC08Sched(t *testing.T) {
 	in, outp := os.Getenv("VERIF_C08_IN"), os.Getenv("VERIF_C08_OUT")
 	if in == "" || outp == "" {
@@ -530,6 +609,7 @@ func TestVerifC08Sched(t *testing.T) {
 	defer fo.Close()
 	w := bufio.NewWriterSize(fo, 1<<20)
 	defer w.Flush()
+	vfIntLocked = vfProbeInterrupt(t)
 	sc := bufio.NewScanner(fi)
 	sc.Buffer(make([]byte, 1<<20), 1<<26)
 	total := 0
